@@ -24,7 +24,7 @@ TRACE = ("Trace_C20", "Trace_C20.cfg")
 ALSO = {"quick": [], "thorough": ["harness.props.hv20"]}
 REQUIRED = ["BoundsArg", "GeometryArg", "GeoJson", "Cli", "is-bounds", "not-bounds", "underscore", "spaces", "five-numbers",
             "geojson-string", "geojson-file.geojson", "geojson-file.json", "geojson-valid", "geojson-invalid",
-            "cmd-clip", "cmd-extract-points", "cmd-export-geometry", "flag-first-row-misses", "flag-last-row-misses", "request-good", "request-bad", "library-fails",
+            "cmd-clip", "cmd-extract-points", "cmd-export-geometry", "flag-first-row-misses", "flag-last-row-misses", "flag-ext-fragment", "request-good", "request-bad", "library-fails",
             "flag-policy-error", "flag-policy-drop", "flag-policy-fill", "flag-format-geojson", "flag-format-shapefile",
             "flag-format-wkt", "flag-format-wkb", "flag-format-auto",
             "conv-cf1d", "conv-cf2d", "conv-shoc_simple", "conv-shoc_standard", "conv-ugrid"]
@@ -125,6 +125,9 @@ def cases(tier: str, seed: int) -> list[dict]:
                 cli.append({"cmd": "export-geometry", "format": "auto", "ext": ext, "flags": ["format-auto"], "request": "good"})
         cli.append({"cmd": "export-geometry", "format": "auto", "ext": "json", "flags": ["format-auto"], "request": "good"})
         cli.append({"cmd": "export-geometry", "format": "auto", "ext": "xyz", "flags": ["format-auto", "bad-extension"], "request": "bad"})
+        # no extension at all, and fragments of the known extensions: nothing the format can be guessed from
+        for ext in ("", "geo", "js", "sh"):
+            cli.append({"cmd": "export-geometry", "format": "auto", "ext": ext, "flags": ["format-auto", "bad-extension", "ext-fragment"], "request": "bad"})
         for k, c in enumerate(cli):
             out.append({"src": "gen", "kind": "cli", "world": w, "events": [dict(c, a="Cli", conv=conv)]})
     return out
@@ -331,7 +334,7 @@ def execute(case: dict) -> dict:
                 return proj_nc(p)
             e["lib"] = outcome(lib)
         else:
-            out = work / ("geometry." + e["ext"])
+            out = work / ("geometry." + e["ext"] if e["ext"] else "geometry")
             argv = ["export-geometry", str(inp), str(out)] + (["-f", e["format"]] if e["format"] != "auto" else [])
             code, msg = run_cli(argv, str(work))
             fmt = e["format"] if e["format"] != "auto" else {"geojson": "geojson", "json": "geojson", "shp": "shapefile", "wkt": "wkt", "wkb": "wkb"}.get(e["ext"], "")
